@@ -30,10 +30,25 @@ import (
 	"github.com/cloudwego/eino/schema"
 )
 
+type vcbDerive struct {
+	Base [][]string `json:"base"` // the base option is designated to these nodes one call at a time
+	X    []string   `json:"x"`    // first  := base.Designate(x)
+	Y    []string   `json:"y"`    // second := base.Designate(y)   (derived after first)
+	Use  string     `json:"use"`  // first | second: the sibling that is passed to the call
+}
+
 type vcbHandlerSpec struct {
-	ID    string     `json:"id"`
-	Kind  string     `json:"kind"` // global | undes | des
-	Paths [][]string `json:"paths"`
+	ID     string      `json:"id"`
+	Kind   string      `json:"kind"` // global | undes | des
+	Paths  [][]string  `json:"paths"`
+	Derive *vcbDerive  `json:"derive,omitempty"` // the option is one of two siblings derived from a common base option value
+}
+
+func vcbDesignate(o Option, p []string) Option {
+	if len(p) == 1 {
+		return o.DesignateNode(p[0])
+	}
+	return o.DesignateNodeWithPath(NewNodePath(p...))
 }
 
 type vcbUnit struct {
@@ -950,10 +965,26 @@ func (r *vcbRun) runCase() {
 			return
 		}
 		call = func(opts []Option) (map[string]any, error) {
-			if c.Mode != "stream" {
+			// transform / collect: the caller hands over an array-backed input stream of which it has already consumed the first
+			// chunk; what the graph (and every handler copy of its input) consumes is the rest, "x"
+			partly := func() *schema.StreamReader[string] {
+				in := schema.StreamReaderFromArray([]string{"HEADER", "x"})
+				_, _ = in.Recv()
+				return in
+			}
+			if c.Mode == "collect" {
+				return run.Collect(context.Background(), partly(), opts...)
+			}
+			if c.Mode != "stream" && c.Mode != "transform" {
 				return run.Invoke(context.Background(), "x", opts...)
 			}
-			sr, e := run.Stream(context.Background(), "x", opts...)
+			var sr *schema.StreamReader[map[string]any]
+			var e error
+			if c.Mode == "transform" {
+				sr, e = run.Transform(context.Background(), partly(), opts...)
+			} else {
+				sr, e = run.Stream(context.Background(), "x", opts...)
+			}
 			if e != nil {
 				return nil, e
 			}
@@ -987,6 +1018,21 @@ func (r *vcbRun) runCase() {
 		case "undes":
 			undes = append(undes, h)
 		case "des":
+			if hs.Derive != nil {
+				// built the way user code derives options from a shared base VALUE
+				base := WithCallbacks(h)
+				for _, p := range hs.Derive.Base {
+					base = vcbDesignate(base, p)
+				}
+				first := vcbDesignate(base, hs.Derive.X)
+				second := vcbDesignate(base, hs.Derive.Y)
+				if hs.Derive.Use == "first" {
+					opts = append(opts, first)
+				} else {
+					opts = append(opts, second)
+				}
+				continue
+			}
 			paths := make([]*NodePath, 0, len(hs.Paths))
 			repeated := false
 			for i, p := range hs.Paths {
